@@ -154,6 +154,20 @@ fn query_point(rng: &mut Rng, g: &Geometry<f64>) -> Coord<f64> {
     let span = (x1 - x0).max(y1 - y0).max(1.0);
     // unit of the (possibly scaled) grid: a power of two ≤ span
     let unit = 2f64.powi((span.log2().floor() as i32 - 3).max(-3));
+    // inside a hole (the interiors are what the Polygon impl must not forget)
+    let holes: Vec<&LineString<f64>> = match g {
+        Geometry::Polygon(p) => p.interiors().iter().collect(),
+        Geometry::MultiPolygon(mp) => mp.0.iter().flat_map(|p| p.interiors().iter()).collect(),
+        _ => vec![],
+    };
+    if !holes.is_empty() && rng.chance(1, 3) {
+        let h = *rng.pick(&holes);
+        let n = (h.0.len() - 1).max(1) as f64;
+        let (sx, sy) = h.0.iter().take(h.0.len() - 1).fold((0.0, 0.0), |a, q| (a.0 + q.x, a.1 + q.y));
+        // vertex average, snapped to the quarter-unit lattice so that it stays exactly representable
+        let q = |v: f64| (v / n * 4.0 / unit).round() * unit / 4.0;
+        return Coord { x: q(sx), y: q(sy) };
+    }
     match rng.below(8) {
         // on a vertex
         0 => *rng.pick(&cs),
